@@ -64,66 +64,8 @@ bool decode_line_stub(unsigned char line_hi, unsigned char line_lo,
   return ok;
 }
 
-/* ------------------------------------------------------------ reference */
-enum { R_ACCEPT = 1, R_REJECT = 0, R_UNSPEC = 2 };
-struct refframe { int verdict; unsigned n; unsigned char hi[MAXCALLS], lo[MAXCALLS], len[MAXCALLS]; unsigned off[MAXCALLS]; };
-
-static void ref_frame(struct refframe *r, const unsigned char *in, unsigned n, unsigned first_call)
-{
-  unsigned pos = 0;
-  r->n = 0;
-  if (n == 0) { r->verdict = R_UNSPEC; return; }       /* empty file: documents are silent */
-  for (unsigned iter = 0; iter < MAXCALLS + 1; ++iter) {
-    unsigned char hi, lo, len, body;
-#ifdef BE
-    if (pos >= n) { r->verdict = R_REJECT; return; }    /* physical EOF without end marker */
-    if (in[pos++] != 0x0D) { r->verdict = R_REJECT; return; }
-    if (pos >= n) { r->verdict = R_REJECT; return; }
-    hi = in[pos++];
-    if (hi == 0xFF) { r->verdict = (pos >= n) ? R_ACCEPT : R_UNSPEC; return; }  /* 0D FF */
-    if (pos >= n) { r->verdict = R_REJECT; return; }
-    lo = in[pos++];
-    if (pos >= n) { r->verdict = R_REJECT; return; }
-    len = in[pos++];
-    if (len < 4) { r->verdict = R_REJECT; return; }
-    body = (unsigned char)(len - 4);
-    if (n - pos < body) { r->verdict = R_REJECT; return; }
-#else
-    if (pos >= n) { r->verdict = R_REJECT; return; }
-    len = in[pos++];
-    if (len == 0) {                                     /* 00 FF FF */
-      if (pos >= n) { r->verdict = R_REJECT; return; }
-      if (in[pos++] != 0xFF) { r->verdict = R_REJECT; return; }
-      if (pos >= n) { r->verdict = R_REJECT; return; }
-      if (in[pos++] != 0xFF) { r->verdict = R_REJECT; return; }
-      r->verdict = (pos >= n) ? R_ACCEPT : R_UNSPEC;    /* trailing bytes: tolerated with a warning */
-      return;
-    }
-    if (len < 3) { r->verdict = R_REJECT; return; }
-    if (pos >= n) { r->verdict = R_REJECT; return; }
-    lo = in[pos++];
-    if (pos >= n) { r->verdict = R_REJECT; return; }
-    hi = in[pos++];
-    if (len == 3) { r->verdict = R_UNSPEC; return; }    /* no room for the 0x0D: seen in the wild, tolerated */
-    body = (unsigned char)(len - 3);
-    if (n - pos < body) { r->verdict = R_REJECT; return; }
-    if (in[pos + body - 1] != 0x0D) { r->verdict = R_REJECT; return; }
-    body = (unsigned char)(body - 1);
-#endif
-    if (r->n < MAXCALLS) {
-      r->hi[r->n] = hi; r->lo[r->n] = lo; r->len[r->n] = body; r->off[r->n] = pos;
-    }
-    unsigned j = first_call + r->n;
-    r->n++;
-#ifdef BE
-    pos += body;
-#else
-    pos += body + 1u;
-#endif
-    if (j < MAXCALLS && !C_ok[j]) { r->verdict = R_REJECT; return; }   /* the line itself was rejected */
-  }
-  r->verdict = R_UNSPEC;   /* more lines than the bound: outside the claim */
-}
+#define LINE_OK(j) ((j) >= MAXCALLS || C_ok[(j)])
+#include "ref_frame.h"
 
 static struct refframe REF[NFILES];
 static const struct expansion_map DUMMY_MAP;
